@@ -102,6 +102,17 @@ CHECKS["C03"] = dict(
     design_ref="6/C03",
     technique="paired runs under controlled ambient profiles in separate processes, judged field-wise by a TLA+ trace specification (Pair.tla) in TLC",
 )
+CHECKS["C04"] = dict(
+    category="model_checking",
+    text="Instances.tla: two instances with per-instance option cells; TLC exhausts all interleavings of construct/reset/step/close (depth 8) for non-interference and "
+    "refutes the process-level-cell variant. TLC-generated interleavings (prioritising the shape of that counterexample, both option orientations) are executed on real "
+    "PrimaiteGymEnv instances in one process and instance A's trajectory (observations, rewards, per-agent actions/responses, whole-simulation digests) is compared with "
+    "A's solo run in another process; episodes: dirty;reset(seed);sigma vs fresh;reset(seed);sigma with dirtying action classes (deletes, ACL rules, power, services, "
+    "installs, sessions, NIC disables) on shipped, scheduled and generated scenarios; ownership: no mutable component/agent object is shared between the old and new game "
+    "after reset. All pairs are validated by TLC against PairTrace.tla.",
+    design_ref="6/C04",
+    technique="TLA+ model (Instances.tla) checked by TLC + TLC-generated interleavings executed on real instances + TLC pair-trace validation against solo/fresh runs",
+)
 
 REASON_TODO = "check not built yet in this session (planned, see DESIGN.md 10); nothing is claimed for it"
 
